@@ -76,7 +76,7 @@ func varName(vr *types.Var, suffix string) string {
 func varNameForType(t types.Type) string {
 	nestedType := func(t types.Type) string {
 		if t, ok := t.(*types.Basic); ok {
-			return deCapitalise(t.String())
+			return deCapitalise(t.Name())
 		}
 		return varNameForType(t)
 	}
